@@ -174,6 +174,10 @@ func (t *PageTree) traversePageNode(node core.Dict, parent core.Dict) error {
 
 	switch string(typeName) {
 	case "Pages":
+		// Inheritable attributes may come from any ancestor, not only the
+		// immediate parent (ISO 32000-1 7.7.3.4): carry them down the tree.
+		node = withInheritedAttributes(node, parent)
+
 		// Intermediate node - traverse children
 		kidsObj := node.Get("Kids")
 		if kidsObj == nil {
@@ -220,6 +224,40 @@ func (t *PageTree) traversePageNode(node core.Dict, parent core.Dict) error {
 	}
 
 	return nil
+}
+
+// inheritableAttributes lists the page attributes that are inherited through
+// the page tree (ISO 32000-1 Table 30).
+var inheritableAttributes = []string{"Resources", "MediaBox", "CropBox", "Rotate"}
+
+// withInheritedAttributes returns node, extended with the inheritable
+// attributes of parent that node does not define itself. The original
+// dictionary is not modified.
+func withInheritedAttributes(node core.Dict, parent core.Dict) core.Dict {
+	if parent == nil {
+		return node
+	}
+	var merged core.Dict
+	for _, key := range inheritableAttributes {
+		if node.Get(key) != nil {
+			continue
+		}
+		value := parent.Get(key)
+		if value == nil {
+			continue
+		}
+		if merged == nil {
+			merged = make(core.Dict, len(node)+1)
+			for k, v := range node {
+				merged[k] = v
+			}
+		}
+		merged[key] = value
+	}
+	if merged == nil {
+		return node
+	}
+	return merged
 }
 
 // Page represents a single PDF page
